@@ -1,6 +1,7 @@
 import RtenVerif.Lemmas.PlannerFuel
 import RtenVerif.Lemmas.PlannerSort
 import RtenVerif.Lemmas.PlannerErr
+import RtenVerif.Lemmas.PlannerComplete
 
 /-!
 # C03 — Execution plans are valid, complete and minimal
@@ -23,6 +24,8 @@ that are both supplied and produced, ids that are not in the graph.
 * `c03_dfs_error_witness` (T2b) every traversal error has a real cause in the graph.
 * `c03_plan_ok`         (T3)  the returned plan is duplicate-free, dependency-closed,
                               complete and minimal (`PlanOK`).
+* `c03_complete`        (T2c) on unique-producer graphs, if any `PlanOK` plan exists then
+                              planning succeeds (converse of T2b).
 * `c03_sort_perm`       (T4)  the returned plan is a permutation of the depth-first plan.
 * `c03_sort_orig_*`           the same statements are *false* for `sort_plan` as it was
                               before commit "fix: planner: never schedule an operator
@@ -268,6 +271,58 @@ theorem c03_plan_ok {g : Graph} {ins outs plan : List Nat} {opts : PlanOptions}
         exact (hdfs.outputs o ho).mono (mem_availAfter_perm hperm.symm)
       · intro i hi
         exact hdfs.minimal i (hperm.subset hi)
+
+/-! ## T2c — completeness: errors only when no valid plan exists -/
+
+/-- **C03.T2c (`PlannerComplete`)** Converse of T2b on graphs where every value has at
+most one producer: if *any* `PlanOK` plan `Q` exists for a well-formed request — i.e. the
+request is satisfiable without a dependency cycle through unsupplied values and without a
+needed value that nobody produces — then `create_plan` does not report an error: it returns
+a plan, which is itself `PlanOK`.  Together with `c03_error_cause`: on unique-producer
+graphs planning fails **iff** no valid, complete plan exists. -/
+theorem c03_complete {g : Graph} {ins outs Q : List Nat} {opts : PlanOptions}
+    (hu : UniqueProducer g) (hargs : ArgsOK g ins outs)
+    (hQ : PlanOK g opts.allowMissing (resolvedNew g ins opts.capturesAvailable) outs Q) :
+    ∃ plan, createPlan g ins outs opts = .ok plan ∧
+      PlanOK g opts.allowMissing (resolvedNew g ins opts.capturesAvailable) outs plan := by
+  cases h : createPlan g ins outs opts with
+  | ok plan => exact ⟨plan, rfl, c03_plan_ok hargs h⟩
+  | error e => exact absurd (c03_error_cause hargs h) (no_errCause_of_planOK hu hQ)
+
+/-- On unique-producer graphs: planning fails iff no `PlanOK` plan exists. -/
+theorem c03_error_iff_unsat {g : Graph} {ins outs : List Nat} {opts : PlanOptions}
+    (hu : UniqueProducer g) (hargs : ArgsOK g ins outs) :
+    (∃ e, createPlan g ins outs opts = .error e) ↔
+      ¬∃ Q, PlanOK g opts.allowMissing (resolvedNew g ins opts.capturesAvailable) outs Q := by
+  constructor
+  · rintro ⟨e, he⟩ ⟨Q, hQ⟩
+    obtain ⟨plan, hp, _⟩ := c03_complete (opts := opts) hu hargs hQ
+    rw [he] at hp; cases hp
+  · intro hno
+    cases h : createPlan g ins outs opts with
+    | ok plan => exact absurd ⟨plan, c03_plan_ok hargs h⟩ hno
+    | error e => exact ⟨e, rfl⟩
+
+/-- Why the hypothesis is about registered sources: with two producers of value 0
+(operators 2 and 3; the later one, 3, is the registered source and depends on its own
+output) the sequence `[2]` is dependency-closed and produces the requested output, yet the
+traversal only follows registered sources and reports a cycle.  (`[2]` is not `PlanOK`:
+`Needed` also follows registered sources, so it fails minimality.) -/
+def twoProducers : Graph :=
+  { nodes := [.value, .value,
+      .operator { inputs := [some 1], outputs := [some 0] },
+      .operator { inputs := [some 0], outputs := [some 0] }] }
+
+theorem c03_complete_needs_uniqueProducer :
+    createPlan twoProducers [1] [0] {} = .error .cycle ∧
+      ValidIds twoProducers false [1] [2] ∧ 0 ∈ availAfter twoProducers [1] [2] := by
+  refine ⟨by decide, ⟨⟨_, rfl, ?_⟩, trivial⟩, by decide⟩
+  intro d hd
+  have : d = 1 := by
+    have h : opDeps twoProducers { inputs := [some 1], outputs := [some 0] } = [1] := by decide
+    rw [h] at hd; simpa using hd
+  subst this
+  exact Or.inl (by decide)
 
 /-- Non-vacuity of T3/T4: a diamond with an in-place-capable branch; the sort moves the
 non-in-place operator 6 in front of the in-place-capable operator 5. -/
